@@ -25,7 +25,272 @@ def _int_variable(v: int) -> bool:
     return result(got == exp, reached=inrange)
 
 
+# ------------------------------------------------------------------ literal route == variable route == spec
+import json  # noqa: E402
+
+from vf.spec import pick, shard_of  # noqa: E402,F401
+from py_gql import build_schema, graphql_blocking  # noqa: E402
+from py_gql.schema import (  # noqa: E402
+    Argument, EnumType, EnumValue, Field, ID, InputField, InputObjectType, ListType, NonNullType, ObjectType, Schema, String, Boolean,
+)
+
+OMIT = "<omitted>"
+REJECT = "<reject>"
+
+
+def make_world():
+    color = EnumType("Color", [EnumValue("RED", 1), EnumValue("BLUE", "blue")])
+    inp = InputObjectType("In", lambda: [
+        InputField("req", NonNullType(Int)), InputField("opt", Int), InputField("dflt", Int, default_value=7),
+        InputField("py", String, python_name="py_name"), InputField("self", inp), InputField("col", color, default_value="blue"),
+    ])
+    return {"Int": Int, "String": String, "Boolean": Boolean, "ID": ID, "Color": color, "In": inp}
+
+
+def parse_texpr(world, t):
+    if t.endswith("!"):
+        return NonNullType(parse_texpr(world, t[:-1]))
+    if t.startswith("["):
+        return ListType(parse_texpr(world, t[1:-1]))
+    return world[t]
+
+
+INTS = (0, 2147483647, -2147483648, 2147483648, -2147483649)
+
+
+def gen(t, depth=0):
+    """(json value, literal text) candidates for type expression t"""
+    if t.endswith("!"):
+        yield from gen(t[:-1], depth)
+        return
+    yield (None, "null")
+    if t.startswith("["):
+        item = t[1:-1]
+        items = [x for x in gen(item, depth + 1)][: (4 if depth == 0 else 2)]
+        yield ([], "[]")
+        for v, l in items:
+            yield ([v], "[%s]" % l)
+            if not isinstance(v, list):
+                yield (v, l)                      # single value in list position
+        if len(items) >= 2:
+            yield ([items[1][0], items[0][0]], "[%s, %s]" % (items[1][1], items[0][1]))
+        yield ({"a": 1}, "{a: 1}")
+        return
+    if t == "Int":
+        for i in (INTS if depth == 0 else INTS[:1] + INTS[3:4]):
+            yield (i, str(i))
+        yield ([1], "[1]")
+        yield ({"a": 1}, "{a: 1}")
+    elif t == "String":
+        yield ("s", '"s"')
+        yield ("", '""')
+        yield ({"a": 1}, "{a: 1}")
+    elif t == "Boolean":
+        yield (True, "true")
+        yield (False, "false")
+    elif t == "ID":
+        yield ("a", '"a"')
+        yield (12, "12")
+    elif t == "Color":
+        yield ("RED", "RED")
+        yield ("BLUE", "BLUE")
+        yield ("GREEN", "GREEN")
+        yield ([["RED"]], "[[RED]]")
+    elif t == "In":
+        reqs = [(1, "1"), (None, "null"), (OMIT, None)]
+        opts = [(OMIT, None), (2, "2"), (None, "null")]
+        dflts = [(OMIT, None), (3, "3"), (None, "null")]
+        pys = [(OMIT, None), ("p", '"p"')]
+        selfs = [(OMIT, None)] + ([({"req": 4}, "{req: 4}"), ({"req": 4, "zzz": 1}, "{req: 4, zzz: 1}"), ({}, "{}")] if depth < 2 else [])
+        cols = [(OMIT, None), ("RED", "RED")]
+        import itertools
+        combos = list(itertools.product(reqs, opts, dflts, pys, selfs, cols))
+        if depth > 0:
+            combos = combos[::17]
+        for combo in combos:
+            js, ls = {}, []
+            for name, (v, l) in zip(("req", "opt", "dflt", "py", "self", "col"), combo):
+                if v is not OMIT:
+                    js[name] = v
+                    ls.append("%s: %s" % (name, l))
+            yield (js, "{%s}" % ", ".join(ls))
+        yield ({"req": 1, "unknown": 2}, "{req: 1, unknown: 2}")
+        yield ([{"req": 1}], "[{req: 1}]") if False else ("x", '"x"')
+        yield (5, "5")
+
+
+def spec_coerce(world, t, v):
+    """input coercion, spec section 3 (per type) and 6.4.1 CoerceArgumentValues; returns REJECT or the coerced value"""
+    if t.endswith("!"):
+        if v is None:
+            return REJECT
+        return spec_coerce(world, t[:-1], v)
+    if v is None:
+        return None
+    if t.startswith("["):
+        item = t[1:-1]
+        if not isinstance(v, list):
+            r = spec_coerce(world, item, v)
+            return REJECT if r == REJECT else [r]
+        out = []
+        for x in v:
+            r = spec_coerce(world, item, x)
+            if r == REJECT:
+                return REJECT
+            out.append(r)
+        return out
+    if t == "Int":
+        return v if (isinstance(v, int) and not isinstance(v, bool) and -2147483648 <= v <= 2147483647) else REJECT
+    if t == "String":
+        return v if isinstance(v, str) else REJECT
+    if t == "Boolean":
+        return v if isinstance(v, bool) else REJECT
+    if t == "ID":
+        return str(v) if isinstance(v, (str, int)) and not isinstance(v, bool) else REJECT
+    if t == "Color":
+        return {"RED": 1, "BLUE": "blue"}.get(v, REJECT) if isinstance(v, str) else REJECT
+    if t == "In":
+        if not isinstance(v, dict):
+            return REJECT
+        spec = (("req", "Int!", OMIT, "req"), ("opt", "Int", OMIT, "opt"), ("dflt", "Int", 7, "dflt"), ("py", "String", OMIT, "py_name"),
+                ("self", "In", OMIT, "self"), ("col", "Color", "blue", "col"))
+        for k in v:
+            if k not in [s[0] for s in spec]:
+                return REJECT
+        out = {}
+        for name, ft, default, pyname in spec:
+            if name in v:
+                r = spec_coerce(world, ft, v[name])
+                if r == REJECT:
+                    return REJECT
+                out[pyname] = r
+            elif default is not OMIT:
+                out[pyname] = default
+            elif ft.endswith("!"):
+                return REJECT
+        return out
+    raise ValueError(t)
+
+
+TYPE_EXPRS = ("Int", "Int!", "String", "Boolean!", "ID", "Color", "Color!", "In", "In!", "[Int]", "[Int!]", "[Int!]!", "[[Int]]", "[Color!]", "[In!]", "[[In]!]")
+
+
+def build_cases():
+    cases = []
+    for t in TYPE_EXPRS:
+        seen = set()
+        for v, l in gen(t):
+            key = json.dumps(v, sort_keys=True)
+            if key in seen:
+                continue
+            seen.add(key)
+            cases.append((t, v, l))
+        cases.append((t, OMIT, None))
+    return cases
+
+
+CASES = build_cases()
+N_CASES = len(CASES)
+
+
+def run_request(t, query, variables):
+    world = make_world()
+    calls = []
+
+    def resolver(root, ctx, info, **kw):
+        calls.append(kw)
+        return 1
+    q = ObjectType("Query", [Field("f", Int, args=[Argument("x", parse_texpr(world, t)), Argument("d", Int, default_value=5)], resolver=resolver)])
+    schema = Schema(q)
+    res = graphql_blocking(schema, query, variables=variables)
+    return calls, res
+
+
+def _routes(case: int, default_var: bool) -> bool:
+    """
+    pre: 0 <= case < N_CASES
+    pre: shard_of(case)
+    post: _
+    """
+    t, v, lit = pick(case, CASES)
+    dv = True if default_var else False
+    with untraced():
+        world = make_world()
+        exp = REJECT if (v is OMIT and t.endswith("!")) else (OMIT if v is OMIT else spec_coerce(world, t, v))
+        exp_kwargs = None if exp == REJECT else ({"d": 5} if exp is OMIT else {"d": 5, "x": exp})
+        # literal route
+        if v is OMIT:
+            calls_l, res_l = run_request(t, "{ f }", {})
+        else:
+            calls_l, res_l = run_request(t, "{ f(x: %s) }" % lit, {})
+        # variable route (the variable optionally declares a default, which must not matter when a value is supplied)
+        decl = "$v: %s" % t
+        if dv and not t.endswith("!"):
+            decl += " = null"
+        if v is OMIT:
+            calls_v, res_v = run_request(t, "query (%s) { f(x: $v) }" % decl, {})
+            if dv and not t.endswith("!"):
+                exp_v = {"d": 5, "x": None}
+            else:
+                exp_v = exp_kwargs
+        else:
+            calls_v, res_v = run_request(t, "query (%s) { f(x: $v) }" % decl, {"v": v})
+            exp_v = exp_kwargs
+        ok = True
+        for calls, res, e in ((calls_l, res_l, exp_kwargs), (calls_v, res_v, exp_v)):
+            if e is None:
+                ok = ok and calls == [] and bool(res.errors)
+            else:
+                ok = ok and calls == [e] and not res.errors
+        if known.c07_excluded(t, v, exp):
+            return result(True, False)
+    return result(ok, exp != REJECT)
+
+
+NN_CASES = (
+    # (arg type, variable declaration type, default literal, default coerced, a value (json), value coerced)
+    ("Int!", "Int", "3", 3, 4, 4),
+    ("Color!", "Color", "RED", 1, "BLUE", "blue"),
+    ("In!", "In", "{req: 1}", {"req": 1, "dflt": 7, "col": "blue"}, {"req": 2, "dflt": None}, {"req": 2, "dflt": None, "col": "blue"}),
+    ("[Int!]!", "[Int!]", "[1]", [1], 5, [5]),
+)
+
+
+def _nullable_var_nonnull_arg(c: int, supply: int) -> bool:
+    """
+    pre: 0 <= c < len(NN_CASES) and 0 <= supply <= 2
+    post: _
+    """
+    at, vt, dl, dc, val, vc = pick(c, NN_CASES)
+    sp = concrete_int(supply, 0, 2)
+    with untraced():
+        q = "query ($v: %s = %s) { f(x: $v) }" % (vt, dl)
+        variables = {} if sp == 0 else ({"v": None} if sp == 1 else {"v": val})
+        calls, res = run_request(at, q, variables)
+        if sp == 0:
+            ok = calls == [{"x": dc, "d": 5}] and not res.errors
+        elif sp == 1:
+            # explicit null for a non-null argument: rejected, the resolver never sees None
+            ok = calls == [] and bool(res.errors)
+        else:
+            ok = calls == [{"x": vc, "d": 5}] and not res.errors
+    return result(ok, True)
+
+
 CONDITIONS = [
+    Cond(
+        name="nullable_var_nonnull_arg", fn=_nullable_var_nonnull_arg, quick=60, thorough=60,
+        bound="non-null argument fed by a nullable variable that declares a non-null default (allowed by the spec's variable-position rule): variable omitted / explicit null / value, 4 type families",
+        symbolic={"c": "choice: type family", "supply": "choice: omitted/null/value"}, witness={"c": 0, "supply": 2},
+    ),
+    Cond(
+        name="routes", fn=_routes, quick=120, thorough=300, per_path=60, shards_quick=16, shards_thorough=16,
+        bound="%d (type expression, value) cases over %d type expressions (wrappers <= 3 over Int/String/Boolean/ID/enum with internal values/recursive input object with required, optional, defaulted, python_name fields): "
+              "value given inline and through a variable (with/without a declared default)" % (N_CASES, len(TYPE_EXPRS)),
+        symbolic={"case": "choice: index into the generated case table", "default_var": "choice: variable declares '= null'"},
+        assumptions=["oracle: spec input coercion (sections 3.5-3.10, 6.4.1) transcribed in spec_coerce", "resolver kwargs observed by a recording resolver through graphql_blocking"],
+        witness={"case": 1, "default_var": False},
+    ),
     Cond(
         name="int_variable", fn=_int_variable, quick=30, thorough=120,
         bound="v: every int with |v| <= 10**12 (z3 Int; the bound only limits the digit-count forks of the error message formatting)",
